@@ -30,8 +30,8 @@ THEOREMS = [
 RULE = ("seeded generator over kinds {plot_diagrams, bottleneck_matching, wasserstein_matching, "
         "plot_landscape_simple exact / approx, 3-D smoke} x classes {single array, list, infinite deaths, "
         "only infinite deaths, empty diagram among others, all empty, constant (zero range), points below the "
-        "diagonal, scales 2^-10..2^10, random doubles} x options {plot_only (incl. [] and out of range), "
-        "lifetime, diagonal, legend, labels list / single string, xy_range, title} x input dtype {float64, float32, "
+        "diagonal, scales 2^-10..2^10, random doubles} x options {plot_only (incl. [] and out of range; as list, tuple or list of numpy integers), "
+        "lifetime, diagonal, legend, labels list / single string, xy_range (list or tuple), title} x input dtype {float64, float32, "
         "int64, int32, nested list; matching plots: integer-dtype diagrams with odd birth+death matched to the diagonal} x {the same array object at two positions of the list} x {two calls in a row on the same "
         "array objects, both judged on the caller's ORIGINAL data} x axes {other axes current, "
         "given axes current, ax=None}; call histories in one process (harness/history.py; argument arrays interned, so equal "
@@ -40,7 +40,8 @@ RULE = ("seeded generator over kinds {plot_diagrams, bottleneck_matching, wasser
         "title / labels varying per step, the axes mode (other current / given current / ax=None) varying per step; the same "
         "diagrams re-plotted on the same axes with other options; a rejected call (plot_only out of range, nothing finite) "
         "followed by clean calls on the same axes; a diagram plot followed by bottleneck and wasserstein matching plots on the "
-        "same axes; several 2-D landscape plots on the same axes, title / labels given in some steps only; a fresh figure per "
+        "same axes; several 2-D landscape plots on the same axes, title / labels given in some steps only; a loop over the two panels of one figure (each call given "
+        "another axes of the same figure, diagram / matching / landscape plots mixed); a fresh figure per "
         "step with the same array objects passed to plot_diagrams, bottleneck_matching and wasserstein_matching}: every step is "
         "judged by the property on the artists THAT call added (identified by object identity against a snapshot taken before "
         "the call) and on the state of the axes after it - infinite deaths on a horizontal line present on the axes strictly "
@@ -176,6 +177,11 @@ def _gen_pd(rng):
         lo2 = rng.choice([lo, rng.randint(-80, 0) / 4.0])
         c["xy_range"] = [lo * scale, (lo + rng.randint(1, 200) / 4.0) * scale,
                          lo2 * scale, (lo2 + rng.randint(1, 200) / 4.0) * scale]
+    # containers: plot_only as a tuple / a list of numpy integers, xy_range as a tuple
+    if c["plot_only"] is not None and rng.random() < 0.3:
+        c["po_kind"] = rng.choice(["tuple", "npint"])
+    if c["xy_range"] is not None and rng.random() < 0.25:
+        c["xyr_kind"] = "tuple"
     if cls == "labels" or rng.random() < 0.2:
         c["labels"] = [rng.choice(STRS[:5]) for _ in range(len(dg))]
     if cls == "one_label" and not c["plot_only"]:
@@ -302,9 +308,19 @@ def _histories(rng, n):
     hs = []
     for _ in range(n):
         kind = rng.choice(["overlay", "overlay", "overlay", "overlay", "replot", "error_then_clean", "pd_then_matching",
-                           "matchings", "landscapes", "landscapes", "shared_arrays"])
+                           "matchings", "landscapes", "landscapes", "shared_arrays", "subplots", "subplots"])
         steps = []
-        if kind == "overlay":
+        if kind == "subplots":
+            # a loop over the panels of one figure: each call is given another axes of the same figure
+            t = rng.randrange(2)
+            for _k in range(rng.choice([2, 3, 3, 4])):
+                r = rng.random()
+                st = (_pd_step(rng, force_inf=rng.random() < 0.8) if r < 0.7 else
+                      _match_step(rng, rng.choice(["bn", "ws"]), True) if r < 0.85 else _land_step(rng, rng.choice(["le", "la"])))
+                st["target"] = t
+                steps.append(st)
+                t = 1 - t if rng.random() < 0.8 else t
+        elif kind == "overlay":
             # diagrams of different value ranges drawn onto the same axes, most of them with infinite deaths
             for _k in range(rng.choice([2, 2, 3])):
                 steps.append(_pd_step(rng, force_inf=rng.random() < 0.8))
@@ -387,7 +403,7 @@ def generate(rng, tier):
         cases.append(_gen_land(rng, "la"))
     for _ in range(1 if tier == "quick" else 4):
         cases.append({"kind": "l3", "cls": "l3", "dgm": [[0.0, 2.0], [1.0, 4.0]], "approx": bool(rng.random() < 0.5)})
-    return cases + _histories(rng, 36 if tier == "quick" else 600)
+    return cases + _histories(rng, 40 if tier == "quick" else 700)
 
 
 def search_generate(rng, n):
@@ -512,15 +528,15 @@ def _collect_axes(ax):
     }
 
 
-def _wrap_limits(ax, st):
-    """records the arguments of the first set_xlim / set_ylim call persim itself makes during the current call"""
+def _wrap_limits(ax, st, idx):
+    """records the arguments of the first set_xlim / set_ylim call persim itself makes on this axes during the current call"""
     for name in ("set_xlim", "set_ylim"):
         def wrap(orig, name=name):
             def w(*a, **k):
                 # only calls made by persim itself (matplotlib re-enters these methods when autoscaling)
-                if "persim" in sys._getframe(1).f_code.co_filename and name not in st["req"]:
+                if "persim" in sys._getframe(1).f_code.co_filename and name not in st["req"][idx]:
                     v = a[0] if len(a) == 1 else list(a)
-                    st["req"][name] = [float(x) for x in v]
+                    st["req"][idx][name] = [float(x) for x in v]
                 return orig(*a, **k)
             return w
         setattr(ax, name, wrap(getattr(ax, name)))
@@ -528,10 +544,17 @@ def _wrap_limits(ax, st):
 
 def _new_figure():
     import matplotlib.pyplot as plt
-    fig, (ax_given, ax_other) = plt.subplots(1, 2)
-    st = {"fig": fig, "given": ax_given, "other": ax_other, "req": {}, "lifetime_calls": 0}
-    _wrap_limits(ax_given, st)
+    fig, axes = plt.subplots(1, 2)
+    st = {"fig": fig, "axes": list(axes), "req": [{}, {}], "lifetime_calls": [0, 0]}
+    for idx, ax in enumerate(st["axes"]):
+        _wrap_limits(ax, st, idx)
     return st
+
+
+def _rest(ax):
+    import matplotlib.collections as mc
+    return (len([c for c in ax.collections if not isinstance(c, mc.PathCollection)]) + len(ax.patches) + len(ax.images)
+            + len(ax.texts) + len(ax.tables))
 
 
 def _artists(ax):
@@ -563,8 +586,10 @@ def _one(c, arrs=None, memo=None):
         st = memo["__fig"]
     else:
         st = _new_figure()
-    fig, ax_given, ax_other = st["fig"], st["given"], st["other"]
-    st["req"] = {}
+    # a step of a history may address either panel of the shared figure ("target": a loop over subplots)
+    t = int(c.get("target", 0)) if shared else 0
+    fig, ax_given, ax_other = st["fig"], st["axes"][t], st["axes"][1 - t]
+    st["req"] = [{}, {}]
     out = {}
     try:
         mode = c.get("axes", "other")
@@ -573,17 +598,25 @@ def _one(c, arrs=None, memo=None):
         # snapshot: what is on the two axes before the call (the objects are kept alive, so identities stay unique)
         before = _artists(ax_given), _artists(ax_other), ax_given.get_legend()
         seen = {id(a) for grp in before[:2] for lst in grp for a in lst}
+        before_other_legend = ax_other.get_legend()
         if shared:
             out["prev"] = {"title": ax_given.get_title(), "xlabel": ax_given.get_xlabel(), "ylabel": ax_given.get_ylabel(),
-                           "n_scatter": len(before[0][0]), "n_lines": len(before[0][1])}
+                           "n_scatter": len(before[0][0]), "n_lines": len(before[0][1]),
+                           "other": {"title": ax_other.get_title(), "xlabel": ax_other.get_xlabel(),
+                                     "ylabel": ax_other.get_ylabel(), "rest": _rest(ax_other)}}
         if kind == "pd":
             if arrs is None:
                 arrs = _build_arrs(np, c, memo)
-            V.plot_diagrams(arrs[0] if c["single"] else arrs, plot_only=c["plot_only"], title=c["title"],
-                            xy_range=c["xy_range"], labels=c["labels"], diagonal=c["diagonal"],
+            po, xyr = c["plot_only"], c["xy_range"]
+            if po is not None and c.get("po_kind"):
+                po = tuple(po) if c["po_kind"] == "tuple" else [np.int64(i) for i in po]
+            if xyr is not None and c.get("xyr_kind") == "tuple":
+                xyr = tuple(xyr)
+            V.plot_diagrams(arrs[0] if c["single"] else arrs, plot_only=po, title=c["title"],
+                            xy_range=xyr, labels=c["labels"], diagonal=c["diagonal"],
                             lifetime=c["lifetime"], legend=c["legend"], show=False, ax=ax_arg)
             if c["lifetime"]:
-                st["lifetime_calls"] += 1
+                st["lifetime_calls"][t] += 1
         elif kind in ("bn", "ws"):
             d1 = _get_arr(np, memo, c["d1"], dtype=c.get("dtype", "f64"))
             d2 = _get_arr(np, memo, c["d2"], dtype=c.get("dtype", "f64"))
@@ -616,16 +649,17 @@ def _one(c, arrs=None, memo=None):
             out["returns_axes"] = bool(r is ax_given)
         out["given"] = _collect_axes(ax_given)
         out["other"] = _collect_axes(ax_other)
-        out["requested"] = dict(st["req"])
+        out["requested"] = dict(st["req"][t])
         if shared:
             (gc, gl), (oc, ol) = _artists(ax_given), _artists(ax_other)
             leg = ax_given.get_legend()
-            out["prev"]["lifetime_calls"] = st["lifetime_calls"]
+            out["prev"]["lifetime_calls"] = st["lifetime_calls"][t]
             out["new"] = {"scatter": [k for k, a in enumerate(gc) if id(a) not in seen],
                           "lines": [k for k, a in enumerate(gl) if id(a) not in seen],
                           "other_scatter": [k for k, a in enumerate(oc) if id(a) not in seen],
                           "other_lines": [k for k, a in enumerate(ol) if id(a) not in seen],
-                          "legend": bool(leg is not None and leg is not before[2])}
+                          "legend": bool(leg is not None and leg is not before[2]),
+                          "other_legend": bool(ax_other.get_legend() is not before_other_legend)}
         return out
     except Exception as e:
         res = {"error": type(e).__name__, "msg": str(e)[:200]}
@@ -726,6 +760,15 @@ def _plotted(c):
 def _clean_other(o, mode):
     """nothing may be drawn anywhere but on the axes that was given"""
     ot = o["other"]      # never the target: in modes "given" / "gca" the given axes IS the current one
+    new = o.get("new")
+    if new is not None:
+        # a step of a history: the other panel may hold what earlier steps drew THERE; this call must not add to it
+        po = (o.get("prev") or {}).get("other") or {}
+        if (new["other_lines"] or new["other_scatter"] or new["other_legend"] or ot["rest"] != po.get("rest", 0)
+                or any(ot[k] != po.get(k, "") for k in ("title", "xlabel", "ylabel"))):
+            return False, "axes: %d line(s), %d collection(s) drawn on another axes than the given one" % (
+                len(new["other_lines"]), len(new["other_scatter"]))
+        return True, ""
     if ot["lines"] or ot["scatter"] or ot["rest"] or ot["title"] or ot["xlabel"] or ot["ylabel"] or ot["legend"] is not None:
         return False, "axes: %d line(s), %d collection(s) drawn on another axes than the given one" % (
             len(ot["lines"]), len(ot["scatter"]))
@@ -1054,6 +1097,11 @@ def _ires(c, o, table, land=False):
     scat = core.coq_list(["(%s, %s)" % (_label(s["label"], table), _pts(s["xy"])) for s in g_scatter])
     other_lines = ot["lines"]
     rest = ot["rest"] + len(ot["scatter"]) + (1 if ot["legend"] is not None else 0) + (1 if ot["title"] else 0)
+    if new is not None:
+        po = prev.get("other") or {}
+        other_lines = [ot["lines"][k] for k in new["other_lines"]]
+        rest = (abs(ot["rest"] - po.get("rest", 0)) + len(new["other_scatter"]) + (1 if new["other_legend"] else 0)
+                + sum(1 for k in ("title", "xlabel", "ylabel") if ot[k] != po.get(k, "")))
     xlim = req.get("set_xlim", g["xlim"])
     ylim = req.get("set_ylim", g["ylim"])
     if land:
@@ -1196,7 +1244,7 @@ def shrink_candidates(c):
         return
     k = c["kind"]
     if k == "pd":
-        for key in ("second", "alias"):
+        for key in ("second", "alias", "po_kind", "xyr_kind"):
             if c.get(key):
                 d = dict(c); d[key] = None; yield d
         if c.get("dtype", "f64") != "f64":
